@@ -199,6 +199,11 @@ func (g *genState) restrict(t *tableSpec) {
 								break scan
 							}
 						}
+						if !free && spanFits(t, c, s, ref.NCols) {
+							// the cell's minimum is covered by the declared widths of its column
+							// elements: nothing to distribute, F6 cannot be met
+							continue
+						}
 						if !free {
 							for _, p := range refs[s.GX] {
 								*p = ""
@@ -249,11 +254,14 @@ func (g *genState) restrict(t *tableSpec) {
 		}
 	}
 
-	// F8: (automatic layout) at least one column carries no width declaration at all.
+	// F8: (automatic layout) at least one column carries no width declaration at all -- when the
+	// table width is a percentage (F8: the table is shrunk below it) or a column carries a
+	// percentage (F8b: that column is reduced below its minimum).  A table with a px or auto width
+	// whose columns all carry px widths is in the domain (constrained.go).
 	if !fixed && !o.allowAllConstrainedSpecified {
 		ref := buildRef(t)
 		refs := widthRefs(t, ref)
-		free := false
+		free := t.WKind != "pct" && !anyPercentColumn(refs)
 		for x := 0; x < ref.NCols; x++ {
 			if len(refs[x]) == 0 {
 				free = true
